@@ -172,13 +172,16 @@ func C12(r *drv.Run) {
 	if !quick(r) {
 		nrand = 600000
 	}
-	nl := len(c11Leaves())
+	nl := len(c11Leaves()) + 1 // + matchNumber
 	r.Rule = fmt.Sprintf("exhaustive: all %d expressions of depth <= 1 (3 unary x %d leaves + 13 binary x %d x %d leaves, well and ill typed)", 3*nl+13*nl*nl, nl, nl, nl) + " in six statement contexts (transform return, predicate return, if condition, set, debug, predicate return under a pattern whose capture is named after a built-in or a variable of the code); all statement skeletons of nesting depth <= 3 built from loop / if / if-else / ill-typed if around break, continue, return string|number|bool, debug, set, including a statement placed after a nested loop or if (compile only); seeded random statement lists (set, if/else, loop with break/continue, return, debug) over random expression trees of depth <= 2, in predicate and transform context, every variable initialised once with the type its name stands for; pairs of functions in one source where the second reads names only the first assigned (no checker state may leak from one function into the next); and, run: two transforms in ONE replacement where the first assigns a name a string / number / boolean and the second applies every operator that is well typed for an unassigned (string) name to it - each function is typed on its own, so it must also run on its own. Oracle: type checker transcribed from the documented tables decides accept/reject; accepted single-typed terminating programs are run and must not raise an evaluator panic. Distinct by source text; non-trivial = verdicts agreed on a distinct program (both accepted and rejected programs are required)."
 	r.Assumptions = []string{
 		"typing of variables: latest assignment in program order, unassigned names are strings (what the documentation's inference amounts to for single-typed variables)",
 		"integer division by zero at run time is not an undefined *typing* operation (known finding K1 under C09) and is ignored here",
 	}
 	leaves := c11Leaves()
+	// matchNumber: for the checker an undeclared name (a string), at run time a number - every operation the
+	// checker lets through on it must still be defined when it runs (transform contexts bind it)
+	leaves = append(leaves, proc.EVar{Name: "matchNumber"})
 	var exprs []proc.Expr
 	for _, op := range unOps {
 		for _, a := range leaves {
